@@ -74,7 +74,7 @@ def strategy(cell, tier):
         st.lists(st.integers(-6, 6), min_size=0, max_size=5).map(lambda l: ["fancy", l]),
         st.sampled_from([["ellipsis"], ["T"], ["view"], ["copy"], ["flatten"], ["ravel"], ["reshape_flat"], ["reshape_rev"],
                          ["name"], ["synonym"], ["pickle"], ["deepcopy"], ["newaxis"], ["ellipsis_last"], ["empty_tuple"],
-                         ["empty_list"], ["list_fancy"], ["tuple_of_lists"]]),
+                         ["empty_list"], ["list_fancy"], ["tuple_of_lists"], ["pickle_T"], ["pickle_slice"]]),
     )
     return st.fixed_dictionaries({
         "elems": st.lists(gen.vec(("moderate", "octant")), min_size=24, max_size=24),
@@ -324,6 +324,16 @@ def check_case(cell, case, ctx):
                         if n and not numpy.shares_memory(col, arr):
                             fail("column", f"arr[{key!r}] does not share memory with the array (a copy, not the stored column)", "getitem_name")
                             return
+            elif kind == "pickle_T":
+                # a transposed view is Fortran-contiguous: the round trip keeps every element in its place
+                if not same_array(pickle.loads(pickle.dumps(arr.T)), plain.T, "pickle round trip of arr.T", "pickle"):
+                    return
+                if not same_array(copy.deepcopy(arr.T), plain.T, "deepcopy of arr.T", "deepcopy"):
+                    return
+            elif kind == "pickle_slice":
+                if shape[0] > 1:
+                    if not same_array(pickle.loads(pickle.dumps(arr[::2])), plain[::2], "pickle round trip of arr[::2]", "pickle"):
+                        return
             elif kind in ("pickle", "deepcopy"):
                 got = pickle.loads(pickle.dumps(arr)) if kind == "pickle" else copy.deepcopy(arr)
                 if not same_array(got, plain, f"{kind} round trip", kind):
